@@ -355,6 +355,30 @@ theorem has_congr {w w' : WL} {c : Nat} (h : w.get c = w'.get c) : w.has c = w'.
 theorem blk_congr {w w' : WL} {c : Nat} (h : w.get c = w'.get c) : w.blk c = w'.blk c := by
   unfold WL.blk; rw [h]
 
+/-- phase C without the run-loop bookkeeping (signal / debounce flags), used for the invariant proofs -/
+def doMarkOld (s : St) : St :=
+  match s.ph with
+  | .built pe be cs msg =>
+    let m1 := pe.foldl markOne { r := s.q.peer, cancels := s.q.cancels, msg := msg, marked := [] }
+    let m2 := be.foldl markOne { r := s.q.bcst, cancels := m1.cancels, msg := m1.msg, marked := [] }
+    let km := cs.foldl pruneOne (m2.cancels, m2.msg)
+    { s with q := { s.q with peer := m1.r, bcst := m2.r, cancels := km.1 },
+             ph := if km.2.isEmpty then .idle else .flight m1.marked m2.marked km.2 }
+  | _ => s
+
+theorem doMark_eq (s : St) :
+    (doMark s).q = (doMarkOld s).q ∧ (doMark s).ph = (doMarkOld s).ph ∧ (doMark s).peerWL = (doMarkOld s).peerWL ∧
+    (doMark s).pw = (doMarkOld s).pw ∧ (doMark s).bw = (doMarkOld s).bw := by
+  unfold doMark doMarkOld
+  cases hp : s.ph with
+  | built pe be cs msg =>
+    simp only
+    split <;> simp [returnToLoop]
+  | _ => simp
+
+theorem effPeer_congr {s s' : St} (h1 : s'.ph = s.ph) (h2 : s'.peerWL = s.peerWL) : effPeer s' = effPeer s := by
+  unfold effPeer; rw [h1, h2]
+
 theorem effPeer_after_mark (s0 : St) (P : WL) (m : Msg) (a b : List Ent) (hP : s0.peerWL = P)
     (hph : s0.ph = if m.isEmpty then Phase.idle else Phase.flight a b m) : effPeer s0 = recv P m := by
   unfold effPeer
@@ -362,8 +386,8 @@ theorem effPeer_after_mark (s0 : St) (P : WL) (m : Msg) (a b : List Ent) (hP : s
   | nil => simp at hph; simp [hph, hP, recv]
   | cons x m => simp at hph; simp [hph, hP]
 
-theorem inv_doMark {cfg : Cfg} {s : St} (h : Inv cfg s) : Inv cfg (doMark s) := by
-  unfold doMark
+theorem inv_doMarkOld {cfg : Cfg} {s : St} (h : Inv cfg s) : Inv cfg (doMarkOld s) := by
+  unfold doMarkOld
   cases hp : s.ph with
   | built pe be cs msg =>
     simp only
@@ -484,8 +508,8 @@ theorem markFold_keeps (l : List Ent) (hl : (l.map (·.cid)).Nodup) (m : MarkSt)
     rw [has_congr a1, has_congr a2, blk_congr a1, blk_congr a2]
     exact ⟨id, id⟩
 
-theorem ginv_doMark {cfg : Cfg} {s : St} (hi : Inv cfg s) (h : GInv cfg s) : GInv cfg (doMark s) := by
-  unfold doMark
+theorem ginv_doMarkOld {cfg : Cfg} {s : St} (hi : Inv cfg s) (h : GInv cfg s) : GInv cfg (doMarkOld s) := by
+  unfold doMarkOld
   cases hp : s.ph with
   | built pe be cs msg =>
     simp only
@@ -569,11 +593,21 @@ theorem ginv_doMark {cfg : Cfg} {s : St} (hi : Inv cfg s) (h : GInv cfg s) : GIn
   | _ => simpa [hp] using h
 
 
+theorem inv_doMark {cfg : Cfg} {s : St} (h : Inv cfg s) : Inv cfg (doMark s) := by
+  obtain ⟨e1, e2, e3, _, _⟩ := doMark_eq s
+  have ho := inv_doMarkOld h
+  exact ho.congr (by rw [e1]) (by rw [e1]) (by rw [e1]) (by rw [e1]) (by rw [e1]) (by rw [e1])
+    (effPeer_congr e2 e3) (ho.ph.congr (by rw [e1]) (by rw [e1]) (by rw [e1]) e2)
+
+theorem ginv_doMark {cfg : Cfg} {s : St} (hi : Inv cfg s) (h : GInv cfg s) : GInv cfg (doMark s) := by
+  obtain ⟨e1, _, _, e4, e5⟩ := doMark_eq s
+  exact (ginv_doMarkOld hi h).congr (by rw [e1]) (by rw [e1]) (by rw [e1]) (by rw [e1]) e4 e5
+
 /-- the invariant holds in every reachable state -/
 theorem reach_inv {cfg : Cfg} {s : St} (h : Reach cfg s) : Inv cfg s ∧ GInv cfg s := by
   induction h with
   | init => exact ⟨inv_init cfg, ginv_init cfg⟩
-  | step e _ hen ih =>
+  | @step s e _ hen ih =>
     obtain ⟨hi, hg⟩ := ih
     cases e with
     | want bs hs => exact ⟨inv_addWants hi bs hs, ginv_addWants hg bs hs⟩
@@ -585,5 +619,11 @@ theorem reach_inv {cfg : Cfg} {s : St} (h : Reach cfg s) : Inv cfg s ∧ GInv cf
     | fill k => exact ⟨inv_doFill hi k, ginv_doFill hg k⟩
     | mark => exact ⟨inv_doMark hi, ginv_doMark hi hg⟩
     | deliver => exact ⟨inv_doDeliver hi, ginv_doDeliver hg⟩
+    | wake =>
+      exact ⟨hi.congr rfl rfl rfl rfl rfl rfl (by
+          have : isIdle s.ph = true := hen.1
+          unfold effPeer; cases hp : s.ph <;> simp_all [isIdle, step]) (by simp [PhaseInv, step]),
+        hg.congr rfl rfl rfl rfl rfl rfl⟩
+    | timer => exact ⟨hi.congr rfl rfl rfl rfl rfl rfl rfl (hi.ph.congr rfl rfl rfl rfl), hg.congr rfl rfl rfl rfl rfl rfl⟩
 
 end C35
